@@ -827,6 +827,14 @@ func (t *State) doTxInternal(tx *pb.Transaction, batch kvdb.Batch, cacheFiller *
 		if uErr != nil {
 			return uErr
 		}
+		if tx.Coinbase {
+			// an award is paid once: its output being in the table means that a block this
+			// one builds on has already applied this very transaction, and the total with it
+			if _, getErr := t.ldb.Get([]byte(utxoKey)); getErr == nil {
+				t.log.Warn("coinbase output already exists", "utxoKey", utxoKey)
+				return ErrUTXODuplicated
+			}
+		}
 		batch.Put([]byte(utxoKey), uItemBinary) // 插入本交易产生的utxo
 		if cacheFiller != nil {
 			cacheFiller.Add(func() {
